@@ -206,6 +206,21 @@ class _Eliminator(DefaultTransformVisitor):
             return None, ctx
         return super()._visit_effect(stmt, ctx)
 
+    def _always_returns(self, stmt: Stmt) -> bool:
+        """Does control never continue past `stmt`?"""
+        match stmt:
+            case ReturnStmt():
+                return True
+            case ContextStmt():
+                return self._always_returns(stmt.body.stmts[-1])
+            case IfStmt():
+                return (
+                    self._always_returns(stmt.ift.stmts[-1])
+                    and self._always_returns(stmt.iff.stmts[-1])
+                )
+            case _:
+                return False
+
     def _visit_block(self, block: StmtBlock, ctx: None) -> tuple[StmtBlock, None]:
         if self._is_empty_block(block):
             # do nothing
@@ -224,6 +239,13 @@ class _Eliminator(DefaultTransformVisitor):
                         stmts.extend(s.stmts)
                     case _:
                         raise RuntimeError(f'unexpected: {s}')
+
+                # collapsing `if True: ... return` leaves statements behind
+                # a `return`; they are unreachable, so drop them
+                if stmts and self._always_returns(stmts[-1]):
+                    if stmt is not block.stmts[-1]:
+                        self.eliminated = True
+                    break
 
             # empty block -> add a pass statement
             if len(stmts) == 0:
